@@ -222,7 +222,9 @@ pub fn judge(case: &Case) -> Outcome {
 pub fn run(tier: &str, seed: u64) -> i32 {
     let mut report = Report::new(ID, tier, seed);
     report.rule = "grammar-G rules (patterns of every kind, about a third of them already i-prefixed, some starting with \
-        the letter i) x 6 recipe documents and their ASCII case-swapped copies. The ignore_case build of the harness \
+        the letter i) x 6 recipe documents and their ASCII case-swapped copies; string-heavy rules on one field (lists, \
+        quantified lists, str() casts, case twins) x every value that satisfies a member and its case-swapped copy; \
+        rules over few shared fields (or-groups, nested blocks). The ignore_case build of the harness \
         (target-ic, tau-engine/ignore_case) evaluates each rule as written; the default build evaluates the same \
         rule with `i` prepended to every string scalar in pattern position; the verdicts must be equal document by \
         document, and must be admissible for the reference interpreter in ignore_case mode. Non-trivial: \
@@ -279,6 +281,52 @@ pub fn run(tier: &str, seed: u64) -> i32 {
         },
         judge,
         |_, _| {},
+    );
+    // string-heavy rules on one field (lists, quantified lists, str() casts, case twins) against
+    // every satisfying value and its case-swapped copy: here the case flag decides most verdicts
+    gen::drive(
+        &mut report,
+        111,
+        n / 4,
+        gen::rule_same_field_focus,
+        |rule: &RuleSpec| {
+            if !rule.well_formed() {
+                return vec![];
+            }
+            let det = rule.detection_yaml();
+            let mut c = Case::new("c15.pair");
+            c.rules = vec![engine::rule_text(&det, &[], &[]), engine::rule_text(&i_prefix(&det), &[], &[])];
+            c.docs = gen::same_field_docs_for(rule, "f1");
+            vec![c]
+        },
+        judge,
+        |_, rep| rep.label("same_field_rule"),
+    );
+    // optimiser-shaped rules (few shared fields, or-groups, nested blocks)
+    gen::drive(
+        &mut report,
+        112,
+        n / 4,
+        || (gen::rule_focus(true), prop::collection::vec(gen::doc_recipe(), 6)),
+        |(rule, recipes): &(RuleSpec, Vec<gen::DocRecipe>)| {
+            if !rule.well_formed() {
+                return vec![];
+            }
+            let det = rule.detection_yaml();
+            let mut c = Case::new("c15.pair");
+            c.rules = vec![engine::rule_text(&det, &[], &[]), engine::rule_text(&i_prefix(&det), &[], &[])];
+            let base: Vec<DObj> = recipes.iter().map(|r| gen::build_doc(rule, r)).collect();
+            let mut docs = base.clone();
+            for d in &base {
+                if let DocVal::Obj(o) = swapcase(&DocVal::Obj(d.clone())) {
+                    docs.push(o);
+                }
+            }
+            c.docs = docs;
+            vec![c]
+        },
+        judge,
+        |_, rep| rep.label("shared_field_rule"),
     );
     report.finish()
 }
